@@ -44,6 +44,13 @@ def run(rep, tier, seed, replay):
         if line.startswith("panic") or line == "err":
             rep.violation("oracle", "a conversion route panics or fails", {"expr": e}, impl=line[:200])
             continue
+        # converting to an owned value (into_owned, FromStr) does not change what partition() returns
+        om = [x for x in pl.split(" ") if x.startswith("owned=")]
+        if om and om[0] != "owned=same":
+            rep.violation("oracle", "the partition of an owned glob (into_owned / FromStr) differs from the partition of the borrowed glob (prefix, displayed postfix, tokens, program or capture spans)",
+                          {"expr": e, "what": "owned-partition"}, impl=om[0][:300])
+        elif om:
+            rep.stats["owned partition = borrowed partition"] += 1
         f = dict(x.split("=", 1) for x in line.split(" ") if "=" in x and not x.startswith("DIFF"))
         # the model: Display prints the expression the glob was built from
         if unhex(f.get("display", "-")) != e:
